@@ -27,6 +27,8 @@ for item in sys.argv[2:]:
         st = sh(["git", "-C", "/repo", "status", "--short"]).stdout.strip()
         if st:
             print("repo not clean, abort", st); sys.exit(2)
+        EVBAK = "/root/.evidence_backup"
+        shutil.rmtree(EVBAK, ignore_errors=True); shutil.copytree(f"{VR}/evidence", EVBAK)   # evidence must describe the unchanged tree
         a = sh(["git", "-C", "/repo", "apply", f"{out}/patch.diff"])
         if a.returncode != 0:
             results["apply"] = a.stdout
@@ -41,6 +43,7 @@ for item in sys.argv[2:]:
                         shutil.copy(rp, f"{out}/replay-{p}.json")
             finally:
                 sh(["git", "-C", "/repo", "checkout", "--", "."])
+                shutil.rmtree(f"{VR}/evidence", ignore_errors=True); shutil.copytree(EVBAK, f"{VR}/evidence")
     meta = {"breaks_property": prop, "variant": var, "confirmed_in_scratch_worktree": confirmed,
             "confirm_output": c.stdout.strip().split("\n")[-2:], "check_results": results,
             "detected_by_own_check": bool(results.get(prop, {}).get("rc")),
